@@ -52,7 +52,31 @@ func genRep(t *rapid.T) string {
 func gen1(t *rapid.T) Case {
 	cfg := gen.Cfg{Depth: 3, Full: true, Inline: "ims"}
 	var c Case
-	switch rapid.IntRange(0, 2).Draw(t, "source") {
+	switch rapid.IntRange(0, 3).Draw(t, "source") {
+	case 3:
+		// balancing groups whose stacks are pushed and popped differently from match to match
+		o, base := gen.FullOpts(t, true, false, false)
+		o &^= regexp2.IgnorePatternWhitespace | regexp2.ExplicitCapture
+		base.X, base.N = false, false
+		push := ast.Group(ast.GNamed, ast.Lit(rapid.SampledFrom([]rune("a(<")).Draw(t, "open")))
+		push.S = "n0"
+		pop := ast.Group(ast.GBalance, ast.Lit(rapid.SampledFrom([]rune("b)>")).Draw(t, "close")))
+		pop.S2 = "n0"
+		if rapid.Bool().Draw(t, "popnamed") {
+			pop.S = "n1"
+		}
+		qa := ast.Quant(push, rapid.IntRange(0, 1).Draw(t, "pmin"), -1, false)
+		qb := ast.Quant(pop, 0, -1, rapid.Bool().Draw(t, "poplazy"))
+		root := ast.Seq(qa, qb)
+		if o&regexp2.RightToLeft != 0 {
+			root = ast.Seq(qb, qa)
+		}
+		if rapid.IntRange(0, 2).Draw(t, "tail") == 0 {
+			root.Kids = append(root.Kids, gen.Pattern(t, gen.Cfg{Depth: 1}))
+		}
+		gen.Resolve(t, root, base, false, cfg)
+		c.Spec = eng.Spec{Options: int32(o), Pattern: ast.Print(root, ast.PrintOpts{})}
+		c.AST = root
 	case 0:
 		o, base := gen.FullOpts(t, true, false, true)
 		o &^= regexp2.IgnorePatternWhitespace
